@@ -308,57 +308,72 @@ func runC20(tier string, _ []string) int {
 						}
 					case roll < 45 || (roll < 60): // node write / edge write
 						edge := roll >= 45
-						ts := atomic.AddInt64(&tsCounter, 1)*1000 + 1700000000e9
-						val := float64(ts % 1e9)
-						part := fmt.Sprintf("n|%s|%s|%s", node, typ, nk)
-						subj := vlib.NodeSubj(node)
-						if edge {
-							part = fmt.Sprintf("e|%s|%s|%s", node, typ, nk)
-							subj = vlib.EdgeSubj(node, parentOf[node])
+						// one write in ten is made twice in a row with the same value, text and origin and a
+						// newer timestamp: the second one is a write like any other (it moves the timestamp)
+						nrep := 1
+						if cr.Intn(10) == 0 {
+							nrep = 2
 						}
-						mu.Lock()
-						if sent[part] == nil {
-							sent[part] = map[int64]float64{}
-						}
-						sent[part][ts] = val
-						mu.Unlock()
-						o := &c20Op{Part: part, Client: cl, In: regIn{true, ts}, Kind: "write", Call: mono()}
-						record(o)
-						pts := data.Points{{Type: typ, Key: key, Time: time.Unix(0, ts), Value: val, Origin: fmt.Sprint("c", cl)}}
-						var e string
-						var err error
-						if httpClient && !edge {
-							// through the HTTP API (which itself uses the library's 1 s deadline towards the store)
-							mu.Lock()
-							o.Lib = true
-							mu.Unlock()
-							body, _ := json.Marshal(pts)
-							var res httpResp
-							res, err = doHTTP(httpCl, "POST", httpBase+node+"/points", c20Token, true, body, "application/json")
-							if err == nil && res.Status != 200 {
-								err = fmt.Errorf("http %d %s", res.Status, res.Body)
+						for rep := 0; rep < nrep; rep++ {
+							ts := atomic.AddInt64(&tsCounter, 1)*1000 + 1700000000e9
+							val := float64(ts % 1e9)
+							if nrep == 2 {
+								val = 7
+								c.Count("writes_repeating_the_stored_content", 1)
 							}
-							if err == nil {
-								c.Count("http_writes_acknowledged", 1)
+							part := fmt.Sprintf("n|%s|%s|%s", node, typ, nk)
+							subj := vlib.NodeSubj(node)
+							if edge {
+								part = fmt.Sprintf("e|%s|%s|%s", node, typ, nk)
+								subj = vlib.EdgeSubj(node, parentOf[node])
 							}
-						} else if libSender && !edge {
-							// the library's own 1 s acknowledgement deadline is wall-clock: its expiry on a
-							// loaded machine is not "never answered"; the write stays open for monitor (1)
 							mu.Lock()
-							o.Lib = true
+							if sent[part] == nil {
+								sent[part] = map[int64]float64{}
+							}
+							sent[part][ts] = val
 							mu.Unlock()
-							err = client.SendNodePoints(nc, node, pts, true)
-						} else {
-							e, err = vlib.SendAck(nc, subj, pts)
-						}
-						if err == nil && e == "" {
-							mu.Lock()
-							o.Ret = mono()
-							mu.Unlock()
-						} else if err == nil {
-							mu.Lock()
-							o.Kind = "write-refused:" + e
-							mu.Unlock()
+							o := &c20Op{Part: part, Client: cl, In: regIn{true, ts}, Kind: "write", Call: mono()}
+							record(o)
+							pts := data.Points{{Type: typ, Key: key, Time: time.Unix(0, ts), Value: val, Origin: fmt.Sprint("c", cl)}}
+							var e string
+							var err error
+							if httpClient && !edge {
+								// through the HTTP API (which itself uses the library's 1 s deadline towards the store)
+								mu.Lock()
+								o.Lib = true
+								mu.Unlock()
+								body, _ := json.Marshal(pts)
+								var res httpResp
+								res, err = doHTTP(httpCl, "POST", httpBase+node+"/points", c20Token, true, body, "application/json")
+								if err == nil && res.Status != 200 {
+									err = fmt.Errorf("http %d %s", res.Status, res.Body)
+								}
+								if err == nil {
+									c.Count("http_writes_acknowledged", 1)
+								}
+							} else if libSender && !edge {
+								// the library's own 1 s acknowledgement deadline is wall-clock: its expiry on a
+								// loaded machine is not "never answered"; the write stays open for monitor (1)
+								mu.Lock()
+								o.Lib = true
+								mu.Unlock()
+								err = client.SendNodePoints(nc, node, pts, true)
+							} else {
+								e, err = vlib.SendAck(nc, subj, pts)
+							}
+							if err == nil && e == "" {
+								mu.Lock()
+								o.Ret = mono()
+								mu.Unlock()
+							} else if err == nil {
+								mu.Lock()
+								o.Kind = "write-refused:" + e
+								mu.Unlock()
+							}
+							if err != nil {
+								break
+							}
 						}
 					case roll < 95:
 						call := mono()
